@@ -1,19 +1,19 @@
 #!/bin/bash
 # tools/detect_some.sh <glob-suffix e.g. 'm1[78]'> [N=4] : like detect_chains.sh for the kept changes whose name matches seeded/C??-<suffix>;
-# logs in work/detect_zz_some_<k>.log
-pat=$1; N=${2:-4}
+# logs in work/detect_zz_<tag>_<k>.log (tag = third argument, default "some")
+pat=$1; N=${2:-4}; tag=${3:-some}
 cd /verif
 ls -d seeded/C??-$pat/ | sed 's|/$||' > /tmp/someseeded.txt
 for k in $(seq 0 $((N-1))); do
   (
     export MUT_ROOT=/tmp/mutsome_$k
-    : > work/detect_zz_some_$k.log
+    : > work/detect_zz_${tag}_$k.log
     awk -v n=$N -v k=$k 'NR % n == k' /tmp/someseeded.txt | while read d; do
       id=$(basename $d); prop=${id%%-*}; also=$(cat $d/also.txt 2>/dev/null)
-      ./seedtool.sh detect $d $prop $also 2>&1 | grep -E "^DETECT|patch does not apply" >> work/detect_zz_some_$k.log
+      ./seedtool.sh detect $d $prop $also 2>&1 | grep -E "^DETECT|patch does not apply" >> work/detect_zz_${tag}_$k.log
     done
     ./seedtool.sh clean
   ) &
 done
 wait
-cat work/detect_zz_some_*.log | sort
+cat work/detect_zz_${tag}_*.log | sort
